@@ -17,7 +17,10 @@ Local Open Scope Z_scope.
    shown X509_STORE_CTX_get_current_cert (the certificate the error is about); when conn_tls_start failed,
    _handle_proceedtls_default calls xmpp_disconnect and nothing else (in particular not _auth), conn_established
    calls conn_disconnect and returns; conn->domain (the name that is pinned) is written by _conn_connect and
-   _conn_reset only, i.e. it is the domain of the configured JID and nothing the peer sent *)
+   _conn_reset only, i.e. it is the domain of the configured JID and nothing the peer sent;
+   xmpp_conn_set_certfail_handler stores its argument unconditionally (NULL removes, the last setting counts);
+   tls_openssl.c never changes the verification time or verification flags (validity is checked against the real clock);
+   conn_tls_start writes conn->secured only as `conn->secured = 1` after tls_start has returned success *)
 Theorem tls_source_config_is_expected :
   tls_verify_calls = expected_verify_calls /\
   tls_hostflags_calls = expected_hostflags_calls /\
@@ -27,7 +30,10 @@ Theorem tls_source_config_is_expected :
   tls_verify_cert_accessor = CURRENT_CERT /\
   tls_proceed_failure_calls = expected_proceed_failure_calls /\
   tls_legacy_failure_calls = expected_legacy_failure_calls /\
-  tls_domain_written_in = expected_domain_writers.
+  tls_domain_written_in = expected_domain_writers /\
+  tls_set_handler_unconditional = true /\
+  tls_time_overrides = 0 /\
+  tls_secured_only_after_start = true.
 Proof. exact Gen_tls_ok. Qed.
 Print Assumptions tls_source_config_is_expected.
 
@@ -46,7 +52,7 @@ Print Assumptions verify_none_only_with_trust_flag.
 Theorem host_is_pinned_with_full_label_wildcards_only :
   forall sc cfg, tls_new sc = Some cfg ->
     v_host cfg = true /\ v_hostflags cfg = X509_CHECK_FLAG_NO_PARTIAL_WILDCARDS /\
-    v_ca cfg = (s_cafile sc || s_capath sc).
+    v_ca cfg = (s_cafile sc || s_capath sc) /\ v_clock cfg = true.
 Proof. exact host_pinned. Qed.
 Print Assumptions host_is_pinned_with_full_label_wildcards_only.
 
@@ -118,15 +124,16 @@ Theorem unusable_ca_location_fails_closed :
 Proof. exact unusable_ca_fails_closed. Qed.
 Print Assumptions unusable_ca_location_fails_closed.
 
-(* the decision table: 7 certificate kinds x 4 trust modes x 2 entry points x CA set or not = 112 cells.
+(* (the handler history `before` - earlier xmpp_conn_set_certfail_handler calls on the same object - does not matter)
+   the decision table: 7 certificate kinds x 4 trust modes x 2 entry points x CA set or not = 112 cells.
    For every cell and every verdict stream OpenSSL can produce that agrees with the cell's premise
    (all ok iff the certificate is valid and the CA is configured), whatever error code and peer behaviour:
    connected-and-secured, ever-secured and TLS-used all equal "the handshake completes and the table says yes" *)
 Theorem decision_table_112 :
   length all_cells = 112%nat /\ (forall c, In c all_cells) /\
-  forall c mandatory stream hs te after,
+  forall c before mandatory stream hs te after,
     In c all_cells -> stream_consistent c stream ->
-    let tr := snd (run (cell_scenario c mandatory stream hs te after)) in
+    let tr := snd (run (cell_scenario c before mandatory stream hs te after)) in
     connect_secured tr = hs && table_secured c /\
     ever_secured tr = hs && table_secured c /\
     tls_wire_used tr = hs && table_secured c /\
